@@ -296,7 +296,16 @@ where
             use crate::verif::{f64_of, vec_of};
             let mut e = crate::verif::Event {
                 name: "Rollback",
-                f: vec![f64_of(variables.τ), f64_of(variables.κ)],
+                f: vec![
+                    f64_of(variables.τ),
+                    f64_of(variables.κ),
+                    f64_of(self.cost_primal),
+                    f64_of(self.cost_dual),
+                    f64_of(self.res_primal),
+                    f64_of(self.res_dual),
+                    f64_of(self.gap_abs),
+                    f64_of(self.gap_rel),
+                ],
                 ..Default::default()
             };
             if variables.x.len().max(variables.s.len()) <= crate::verif::detail() {
